@@ -961,7 +961,7 @@ RULE_TEXT = (' Route layer (harness/routes.py, kind route; a random stream of it
              '(4 ulp / 1e-9). Non-trivial: no error entry and at least one operand off the variable route or a layout.')
 TRUSTED_TEXT = ('route layer: the variable route (the call with every operand bound by set_variable, commas, one line) is the '
                 'reference the other routes are compared with; which value is the DEFINED one is judged on that route by the '
-                'plugin\'s own cases; IF(TRUE,x,0) and CHOOSE(1,x) hand x on unchanged (in the model: C12.if_spec, C18.choose_spec; on the real code that is what the oracle of these two routes checks); the model-side statement of route independence is proved: C09.call_sees_argument_values, C09.host_routes_yield, C08.operator_sees_operand_outcomes, C08.negation_sees_operand_outcome (Lemmas/Routes.lean)')
+                'plugin\'s own cases; IF(TRUE,x,0) and CHOOSE(1,x) hand x on unchanged (proved of the evaluator model: C12.if_true_hands_on, C18.choose_hands_on; on the real code that is what the oracle of these two routes checks); the model-side statement of route independence is proved: C09.call_sees_argument_values, C09.host_routes_yield, C08.operator_sees_operand_outcomes, C08.negation_sees_operand_outcome (Lemmas/Routes.lean)')
 ASSUMPTION_TEXT = ('the statement fixes what a call or operation evaluates to as a function of the operand VALUES: the same values '
                    'arriving as literals, from the cell or range listener, as results of custom functions, of nested evaluations or of '
                    'IF/CHOOSE, written with any of the three separators, with white space between the tokens, on a debug parser or for '
